@@ -140,7 +140,7 @@ class C07(Check):
             elif k == 'adapt':
                 ops.append({'op': 'adapt', 'by_path': rng.random() < 0.6, 'node': rng.choice(have), 'opn': opn, 'var': var,
                             'val': val(), 'on': on})
-                if rng.random() < 0.3:
+                if rng.random() < 0.6:
                     # a parameter sweep (grid_search) over the same parameter, its grid a DataFrame with row labels in any order
                     ops[-1]['grid'] = {'labels': rng.sample(range(0, 6), 3), 'vals': [val(), val() + 0.5, val() + 1.25]}
             elif k == 'one':
@@ -288,8 +288,11 @@ class C07(Check):
         try:
             R, pm = grid_search(src, pd.DataFrame({'k0': vals}, index=labels), pmap, **sim)
         except Exception as e:
+            # (adapt_circuit on the same source and parameter has just succeeded: the sweep over it has no reason to refuse)
             bump('grid_refused')
-            return None
+            return {'law': 'L-op', 'cls': 'loud', 'key': 'grid_search',
+                    'detail': f'grid_search over {op["node"]}/{op["opn"]}/{op["var"]} with grid rows {dict(zip(labels, vals))} raised '
+                              f'{type(e).__name__}: {str(e)[:160]}'}
         bump('grid_sweep')
         for l, v in zip(labels, vals):
             rows = [i for i in pm.index if str(i).endswith(f'_{l}')]
